@@ -357,6 +357,8 @@ fn single_player_iter<'a, const FIRST: bool>(
     );
 
     // update all infosets
+    // NOTE the unexpanded frontier follows this pass's samples, so it can't be kept either
+    work.work.clear();
     work.payoffs.clear();
     chance_infosets
         .iter_mut()
